@@ -210,6 +210,11 @@ fn existing_pair(r: &mut Rng, w: &World) -> Option<(u64, i64)> {
     Some((*set.iter().nth(j).unwrap(), *k))
 }
 
+/// string keys: shared prefixes, the empty string, multi-byte characters and `char::MAX`
+/// (the upper-bound trick the code replaced would miss keys continuing after `char::MAX`)
+pub const SKEYS: [&str; 16] = ["", "a", "ab", "abc", "abd", "ac", "b", "ba", "a\u{10FFFF}", "a\u{10FFFF}b", "a\u{10FFFF}\u{10FFFF}", "é", "aé", "aéb", "ab\u{10FFFF}z", "c"];
+pub const SPRE: [&str; 12] = ["", "a", "ab", "abc", "abcd", "a\u{10FFFF}", "b", "é", "aé", "d", "ab\u{10FFFF}", "ac"];
+
 pub fn gen_rq(r: &mut Rng) -> String {
     let q = gen_q(r, 3);
     let dir = if r.chance(1, 2) { "asc" } else { "desc" };
@@ -283,14 +288,31 @@ fn gen_one(r: &mut Rng, w: &World) -> String {
             }
             format!("upd {d} {} {}", ks(&old), ks(&new))
         }
-        60..=63 => format!("get {}", key(r)),
+        60..=61 => format!("get {}", key(r)),
+        62 => format!("sins {} {}", r.below(4), crate::world::hex_str(*r.pick(&SKEYS[..]))),
+        63 => {
+            if r.chance(1, 2) && !w.soracle.is_empty() {
+                let i = r.usize(w.soracle.len());
+                let (k, s) = w.soracle.iter().nth(i).unwrap();
+                format!("srem {} {}", s.iter().next().unwrap(), crate::world::hex_str(k))
+            } else {
+                format!("sins {} {}", r.below(4), crate::world::hex_str(*r.pick(&SKEYS[..])))
+            }
+        }
         64..=66 => {
             let c = if r.chance(1, 2) { "-".to_string() } else { qkey(r).to_string() };
             let l = if r.chance(1, 2) { "-".to_string() } else { r.range(0, 6).to_string() };
             format!("keys {c} {l}")
         }
         67..=78 => gen_rq(r),
-        79 => "stats".into(),
+        79 => {
+            if r.chance(1, 2) {
+                "stats".into()
+            } else {
+                let stop = if r.chance(1, 2) { "-".to_string() } else { r.range(0, 4).to_string() };
+                format!("pq {stop} {} {}", if r.chance(1, 4) { "odd" } else { "all" }, crate::world::hex_str(*r.pick(&SPRE[..])))
+            }
+        }
         80 => "len".into(),
         81..=87 => "flush".into(),
         88..=91 => format!("crash {}", r.below(1000)),
@@ -300,7 +322,7 @@ fn gen_one(r: &mut Rng, w: &World) -> String {
         98 => "legacy".into(),
         _ => {
             // stale / tombstone copy of a key inside a lower (or any) bucket object
-            let b = r.below(4);
+            let b = *r.pick(&[0u64, 0, 0, 1, 1, 2]);
             let k = match existing_pair(r, w) {
                 Some((_, k)) if r.chance(2, 3) => k,
                 _ => key(r),
@@ -329,6 +351,12 @@ pub fn gen_checkpoint(r: &mut Rng, w: &World) -> Vec<String> {
     }
     if r.chance(1, 6) {
         v.push(format!("rq asc - all deep {} eq {}", 63 + r.below(3), key(r)));
+    }
+    if !w.soracle.is_empty() {
+        for p in SPRE.iter().take(6) {
+            v.push(format!("pq - all {}", crate::world::hex_str(p)));
+            v.push(format!("pq {} odd {}", 1 + r.below(3), crate::world::hex_str(p)));
+        }
     }
     v.push("keys - -".into());
     let cursors: Vec<i64> = w.oracle.keys().copied().collect();
